@@ -558,6 +558,25 @@ func runC18(p *an.Prog, r *an.Run, tier string) {
 	} else {
 		bad = append(bad, "ethnode.PeerInfo.EnodeURI not found")
 	}
+	// ... and on which hosts count as "no remote address" (RemoteHost answers "" for them, and two empty hosts compare
+	// equal): none, localhost, the unspecified and the loopback addresses — nothing else. Private, link-local or
+	// otherwise "unroutable" addresses are real, different hosts on a LAN deployment; treating them as none keeps a
+	// peer connected from 10.0.0.5 although the pool lists it at 10.0.0.9
+	if hr := p.Method("ethnode", "NodeURI", "hasRemote"); hr != nil {
+		for _, f := range regionFuncs(p, hr) {
+			for _, c := range an.Calls(f, false) {
+				g := an.CallObj(c)
+				if g == nil || an.RecvNamed(g) == nil || an.RecvNamed(g).Obj().Pkg() == nil || an.RecvNamed(g).Obj().Pkg().Path() != "net" || an.RecvNamed(g).Obj().Name() != "IP" {
+					continue
+				}
+				switch g.Name() {
+				case "IsUnspecified", "IsLoopback", "To4", "To16", "Equal", "String":
+				default:
+					bad = append(bad, "NodeURI.hasRemote treats addresses with "+g.Name()+"() ("+p.Pos(c.Pos())+") as having no remote host: distinct hosts of that class all compare equal (as \"\") in strict mode")
+				}
+			}
+		}
+	}
 	r.Check(len(bad) == 0, "invalid-list", name, up.Pos(), "pool's list untouched unless strict; strict: local peers minus (active id with equal host)", "%s", strings.Join(dedup(bad), "; "))
 
 	// ---- fresh-reply: what the agent acts on is this round's reply only. The client stub decodes each reply into a
@@ -715,6 +734,19 @@ func runC18(p *an.Prog, r *an.Run, tier string) {
 		}
 		if !okPos {
 			bad = append(bad, "more peers are requested under a condition other than 'shortfall > 0'")
+		}
+		// ... and whenever there is a shortfall: from the true edge of that comparison no return is reachable without
+		// the request having been made (a back-off that sits rounds out leaves the agent below its target although the
+		// pool has hosts again)
+		for _, ctl := range an.ControllingIfs(apCall.Block()) {
+			rel, okR := an.BranchRel(ctl.If, ctl.Succ)
+			if !okR || rel.L != num {
+				continue
+			}
+			isAP := func(x ssa.Instruction) bool { return x == apCall.(ssa.Instruction) }
+			if hit := pathFromBlock(up, ctl.If.Block().Succs[ctl.Succ], isAP, an.IsReturn); hit != nil {
+				bad = append(bad, "with a shortfall the round can end at "+p.Pos(hit.Pos())+" without peers having been requested: 'requests exactly the shortfall' holds only in some rounds")
+			}
 		}
 		if apCall.Common().Args[2] != ssa.Value(up.Params[2]) {
 			bad = append(bad, "peers are requested from a different pool than the one updated")
